@@ -118,6 +118,13 @@ class Property:
     schema: JsonSchema
 
 
+def _is_object_schema(schema: Mapping[str, Any]) -> bool:
+    # an object with flattened fields has an "allOf" schema
+    return schema.get("type") in {JsonType.OBJECT, "object"} or (
+        "allOf" in schema and all(map(_is_object_schema, schema["allOf"]))
+    )
+
+
 class SchemaBuilder(
     ConversionsVisitor[Conv, JsonSchema],
     ObjectVisitor[JsonSchema],
@@ -256,7 +263,7 @@ class SchemaBuilder(
                 self.visit_with_conv(field.type, self._field_conversion(field)),
                 field.schema,
             )
-        if object_schema.get("type") not in {JsonType.OBJECT, "object"}:
+        if not _is_object_schema(object_schema):
             field_type = "Flattened" if field.flattened else "Properties"
             raise TypeError(
                 f"{field_type} field {cls.__name__}.{field.name}"
